@@ -88,6 +88,9 @@ func (c *Client) Configuration(_ context.Context, _ *protocol.ConfigurationParam
 	if c.ConfigErr || cfg == "" {
 		return nil, fmt.Errorf("configuration unavailable")
 	}
+	if cfg == "EMPTY" {
+		return []interface{}{}, nil // a client that answers with no items
+	}
 	var out []interface{}
 	if err := json.Unmarshal([]byte("["+cfg+"]"), &out); err != nil {
 		return nil, err
